@@ -647,6 +647,8 @@ func checkSplice(p *Prog, r *Res, f *Fn, fl *Flow, as *ast.AssignStmt, key, rule
 		}
 	}
 	r.Check(locked, ruleB, key+" [splice] inserted readers locked", p.Pos(as), "lock of the inserted readers present", "the readers spliced into Manager.indexes are never locked by the service")
+	copies := map[types.Object]*ast.AssignStmt{} // window locals that hold a copy of the run (safe to release after the splice)
+	var relObj types.Object
 	isRelOfRemoved := func(n ast.Node) (bool, string) {
 		found, bounds := false, ""
 		inspectShallow(n, func(z ast.Node) bool {
@@ -668,9 +670,13 @@ func checkSplice(p *Prog, r *Res, f *Fn, fl *Flow, as *ast.AssignStmt, key, rule
 				if !ok || len(conv.Args) != 1 {
 					return true
 				}
-				ssl, ok := ast.Unparen(conv.Args[0]).(*ast.SliceExpr)
+				arg, isCopy := stripSliceCopy(p, f, conv.Args[0])
+				ssl, ok := arg.(*ast.SliceExpr)
 				if !ok || !isFieldOf(info, ssl.X, indexesFld) {
 					return true
+				}
+				if isCopy {
+					copies[robj] = das
 				}
 				lo, hi := "0", "len(mgr.indexes)"
 				if ssl.Low != nil {
@@ -680,6 +686,7 @@ func checkSplice(p *Prog, r *Res, f *Fn, fl *Flow, as *ast.AssignStmt, key, rule
 					hi = types.ExprString(ssl.High)
 				}
 				found, bounds = true, lo+":"+hi
+				relObj = robj
 				return true
 			})
 			return true
@@ -695,10 +702,96 @@ func checkSplice(p *Prog, r *Res, f *Fn, fl *Flow, as *ast.AssignStmt, key, rule
 		return ok
 	})
 	if res.Found {
+		// the other sound order: a COPY of the removed run is taken on every path before the replacement and released on
+		// every path after it (an alias of the window would have been overwritten by the in-place splice)
+		afterBounds := ""
+		var afterObj types.Object
+		isCopyRelease := func(n ast.Node) bool {
+			relObj = nil
+			ok, bb := isRelOfRemoved(n)
+			if ok && relObj != nil && copies[relObj] != nil {
+				afterBounds, afterObj = bb, relObj
+				return true
+			}
+			return false
+		}
+		// populate copies
+		for _, b := range fl.G.Blocks {
+			for _, n := range b.Nodes {
+				isRelOfRemoved(n)
+			}
+		}
+		missing := fl.ExitAvoiding([]Pt{After(mustPoint(fl, as))}, isCopyRelease)
+		if !missing.Found && !fallsOffEndAvoiding(fl, After(mustPoint(fl, as)), isCopyRelease) && afterObj != nil {
+			def := copies[afterObj]
+			undominated := fl.Reach([]Pt{fl.Entry()}, func(n ast.Node) bool { return n == ast.Node(as) }, func(n ast.Node) bool { return n == ast.Node(def) })
+			want := a + ":" + b
+			if !undominated.Found {
+				r.Check(afterBounds == want, ruleB, key+" [splice] removed readers released first", p.Pos(as), "a copy of Manager.indexes["+afterBounds+"] taken before the replacement is released on every path after it",
+					"the released copy Manager.indexes["+afterBounds+"] differs from the removed run ["+want+"]")
+				return
+			}
+		}
 		r.Bad(ruleB, key+" [splice] removed readers released first", p.Pos(as), "the replacement is reachable without first releasing the service hold of the removed run: "+fl.traceString(res))
 	} else {
 		want := a + ":" + b
 		r.Check(relBounds == want, ruleB, key+" [splice] removed readers released first", p.Pos(as), "release of Manager.indexes["+relBounds+"] dominates the replacement and has its bounds",
 			"the released sub-slice Manager.indexes["+relBounds+"] differs from the removed run ["+want+"]: readers that stay served lose their hold, or removed ones keep it — or readers outside the merged run are dropped from the list")
 	}
+}
+
+// stripSliceCopy removes copy wrappers (append([]T(nil), x...), slices.Clone(x)) from e.
+func stripSliceCopy(p *Prog, f *Fn, e ast.Expr) (ast.Expr, bool) {
+	info := f.Pkg.TypesInfo
+	arg := ast.Unparen(e)
+	isCopy := false
+	for {
+		cc, ok := arg.(*ast.CallExpr)
+		if !ok {
+			break
+		}
+		if isBuiltin(info, cc, "append") && len(cc.Args) == 2 && cc.Ellipsis.IsValid() && isEmptySliceExpr(cc.Args[0]) {
+			// the destination must be fresh: nil conversion or empty literal
+			arg = ast.Unparen(cc.Args[1])
+			isCopy = true
+			continue
+		}
+		if fn := p.Callee(f.Pkg, cc); fn != nil && fn.Pkg() != nil && fn.Pkg().Path() == "slices" && fn.Name() == "Clone" && len(cc.Args) == 1 {
+			arg = ast.Unparen(cc.Args[0])
+			isCopy = true
+			continue
+		}
+		break
+	}
+	return arg, isCopy
+}
+
+func mustPoint(fl *Flow, n ast.Node) Pt {
+	if pt, ok := fl.at[n]; ok {
+		return pt
+	}
+	pt, _ := fl.PointOf(n)
+	return pt
+}
+
+// isEmptySliceExpr: []T(nil), []T{}, nil, make([]T, 0, …)
+func isEmptySliceExpr(e ast.Expr) bool {
+	switch x := ast.Unparen(e).(type) {
+	case *ast.Ident:
+		return x.Name == "nil"
+	case *ast.CompositeLit:
+		return len(x.Elts) == 0
+	case *ast.CallExpr:
+		if len(x.Args) == 1 {
+			if id, ok := ast.Unparen(x.Args[0]).(*ast.Ident); ok && id.Name == "nil" {
+				return true
+			}
+		}
+		if id, ok := x.Fun.(*ast.Ident); ok && id.Name == "make" && len(x.Args) >= 2 {
+			if bl, ok := x.Args[1].(*ast.BasicLit); ok && bl.Value == "0" {
+				return true
+			}
+		}
+	}
+	return false
 }
